@@ -20,6 +20,7 @@ import (
 	"strings"
 	"sync"
 	"sync/atomic"
+	"syscall"
 	"time"
 
 	getty "github.com/apache/dubbo-getty"
@@ -93,8 +94,14 @@ func Run(args map[string]string) {
 			res.ChildExit = ee.ExitCode()
 		}
 	case <-time.After(limit):
-		cmd.Process.Kill()
-		<-done
+		// ask the Go runtime for a goroutine dump (stderr), then end the child
+		cmd.Process.Signal(syscall.SIGQUIT)
+		select {
+		case <-done:
+		case <-time.After(5 * time.Second):
+			cmd.Process.Kill()
+			<-done
+		}
 		res.Diverged = true
 		res.ChildExit = -1
 	}
@@ -114,8 +121,12 @@ func Run(args map[string]string) {
 	}
 	if b, err := os.ReadFile(filepath.Join(dir, "child.stderr")); err == nil {
 		s := string(b)
-		if len(s) > 6000 {
-			s = s[len(s)-6000:]
+		keep := 6000
+		if res.Diverged {
+			keep = 30000
+		}
+		if len(s) > keep {
+			s = s[len(s)-keep:]
 		}
 		res.Stderr = s
 	}
@@ -150,6 +161,7 @@ type childResult struct {
 	Errors      map[string]int `json:"errors"`
 	Panics      []string       `json:"panics"`
 	Stuck       []string       `json:"stuck"`
+	StuckDump   string         `json:"stuck_dump,omitempty"`
 	GorBefore   int            `json:"gor_before"`
 	GorAfter    int            `json:"gor_after"`
 	GorLeft     []string       `json:"gor_left"`
@@ -466,6 +478,42 @@ func (e *env) unitMeta(ctx context.Context, r *hutil.Rng, table string) error {
 	return err
 }
 
+var failTables = []string{"t_qerr", "t_nocol", "t_noidx"}
+
+// unitMetaFail: a lookup that must fail (cache miss + failing meta-data load); cancelled = with
+// a context that is already cancelled.  A lookup that unexpectedly succeeds is reported.
+func (e *env) unitMetaFail(ctx context.Context, table string, cancelled bool) error {
+	c := datasource.GetTableCache(types.DBTypeMySQL)
+	if c == nil {
+		return errors.New("no table cache registered")
+	}
+	if cancelled {
+		cctx, cancel := context.WithCancel(ctx)
+		cancel()
+		ctx = cctx
+	}
+	if _, err := c.GetTableMeta(ctx, "db", table); err == nil {
+		return errors.New("lookup of " + table + " succeeded, a failure was expected")
+	}
+	return nil
+}
+
+// unitAtFail: an AT statement on a table whose meta-data cannot be loaded, inside a global
+// transaction: the statement fails and the transaction is rolled back
+func (e *env) unitAtFail(ctx context.Context, table string) error {
+	err := tm.WithGlobalTx(ctx, &tm.GtxConfig{Name: "stress-at-fail", Timeout: 30 * time.Second}, func(ctx context.Context) error {
+		_, err := e.proxy.ExecContext(ctx, "UPDATE "+table+" SET name = ? WHERE id = ?", "x", 1)
+		if err == nil {
+			return errors.New("statement on " + table + " succeeded, a failure was expected")
+		}
+		return errors.New("expected failure")
+	})
+	if err != nil && strings.Contains(err.Error(), "expected failure") {
+		return nil
+	}
+	return err
+}
+
 func (e *env) unitOpen() error {
 	db, err := sql.Open("seata-at-verif-stress", dsn2)
 	if err != nil {
@@ -474,6 +522,66 @@ func (e *env) unitOpen() error {
 	atomic.AddInt64(&e.opens, 1)
 	e.noteTargets()
 	return db.Close()
+}
+
+// blockedDump: stacks of the goroutines that are inside client code, for a lock-up report
+func blockedDump() string {
+	buf := make([]byte, 1<<22)
+	n := runtime.Stack(buf, true)
+	var out []string
+	total := 0
+	for _, g := range strings.Split(string(buf[:n]), "\n\n") {
+		if !strings.Contains(g, "seata.apache.org/seata-go/pkg/") {
+			continue
+		}
+		bg := false
+		for _, f := range backgroundFrames {
+			if strings.Contains(g, f) {
+				bg = true
+			}
+		}
+		if bg || strings.Contains(g, "RunEventLoop") || strings.Contains(g, "fanout.(*Fanout).proc") || strings.Contains(g, "AsyncWorker).run") {
+			continue
+		}
+		lines := strings.Split(g, "\n")
+		if len(lines) > 21 {
+			lines = lines[:21]
+		}
+		t := strings.Join(lines, "\n")
+		total += len(t)
+		if total > 24000 {
+			break
+		}
+		if strings.Contains(lines[0], "sync.") || strings.Contains(lines[0], "semacquire") {
+			out = append([]string{t}, out...) // waiting for a lock: first
+		} else {
+			out = append(out, t)
+		}
+	}
+	return strings.Join(out, "\n\n")
+}
+
+// watched: wall-clock watchdog around a piece of the run.  When f does not come back the
+// lock-up is recorded with a goroutine dump, the result is written and the child ends, so a
+// dead-locked client is an observation of the run, never a hang of the check.
+func (res *childResult) watched(out, name string, limit time.Duration, mu *sync.Mutex, f func()) {
+	done := make(chan struct{})
+	go func() {
+		defer close(done)
+		f()
+	}()
+	select {
+	case <-done:
+	case <-time.After(limit):
+		d := blockedDump()
+		if mu != nil {
+			mu.Lock()
+		}
+		res.Stuck = append(res.Stuck, name+" (no return within "+limit.String()+")")
+		res.StuckDump = d
+		hutil.WriteJSON(out, res)
+		os.Exit(3)
+	}
 }
 
 func guard(f func() error) (class, detail string) {
@@ -533,12 +641,14 @@ func child(args map[string]string) {
 	ctx := context.Background()
 
 	// ---- warm-up: every unit once, so lazily started workers exist before the baselines
-	guard(func() error { return e.unitTm(ctx, true) })
-	guard(func() error { return e.unitTcc(ctx, true) })
-	guard(func() error { return e.unitAt(ctx, true, 1, 1) })
-	guard(func() error { e.phase2(true); return nil })
-	guard(func() error { return e.unitMeta(ctx, rng, "t_user") })
-	guard(func() error { return e.unitSelect(rng) })
+	res.watched(args["out"], "warm-up", 60*time.Second, nil, func() {
+		guard(func() error { return e.unitTm(ctx, true) })
+		guard(func() error { return e.unitTcc(ctx, true) })
+		guard(func() error { return e.unitAt(ctx, true, 1, 1) })
+		guard(func() error { e.phase2(true); return nil })
+		guard(func() error { return e.unitMeta(ctx, rng, "t_user") })
+		guard(func() error { return e.unitSelect(rng) })
+	})
 	time.Sleep(300 * time.Millisecond)
 
 	// ---- accounting: each unit kind sequentially, deltas after settling
@@ -571,6 +681,15 @@ func child(args map[string]string) {
 		{"select", "commit", 0, 0, func(i int) error { return e.unitSelect(rng) }},
 		{"meta", "commit", 0, 1, func(i int) error { return e.unitMeta(ctx, rng, fmt.Sprintf("t_acc_%d_%d", seed, i)) }},
 		{"meta", "commit", 0, 0, func(i int) error { return e.unitMeta(ctx, rng, "t_user") }},
+		{"meta_fail", "rollback", 0, 1, func(i int) error {
+			return e.unitMetaFail(ctx, fmt.Sprintf("%s_%d_%d", failTables[i%len(failTables)], seed, i), false)
+		}},
+		{"meta_fail_cancelled", "rollback", 0, 1, func(i int) error {
+			return e.unitMetaFail(ctx, fmt.Sprintf("t_cancel_%d_%d", seed, i), true)
+		}},
+		{"at_fail", "rollback", 1, 1, func(i int) error {
+			return e.unitAtFail(ctx, fmt.Sprintf("%s_at_%d_%d", failTables[i%len(failTables)], seed, i))
+		}},
 		{"open", "commit", 0, 0, func(i int) error { return e.unitOpen() }},
 	}
 	for _, k := range kinds {
@@ -580,7 +699,10 @@ func child(args map[string]string) {
 		runs := 3 + rng.Intn(3)
 		for i := 0; i < runs; i++ {
 			o.Runs++
-			cls, det := guard(func() error { return k.f(i) })
+			var cls, det string
+			res.watched(args["out"], fmt.Sprintf("sequential unit %s/%s run %d", k.kind, k.outcome, i), 30*time.Second, nil, func() {
+				cls, det = guard(func() error { return k.f(i) })
+			})
 			switch cls {
 			case "ok":
 				o.OK++
@@ -636,7 +758,13 @@ func child(args map[string]string) {
 			defer wg.Done()
 			for time.Now().Before(deadline) {
 				commit := r.Chance(2, 3)
-				switch r.Intn(12) {
+				switch r.Intn(14) {
+				case 12:
+					runUnit(w, "meta_fail", func() error {
+						return e.unitMetaFail(ctx, fmt.Sprintf("%s_%d", failTables[r.Intn(3)], r.Intn(40)), r.Chance(1, 4))
+					})
+				case 13:
+					runUnit(w, "at_fail", func() error { return e.unitAtFail(ctx, fmt.Sprintf("%s_%d", failTables[r.Intn(3)], r.Intn(40))) })
 				case 0, 1:
 					runUnit(w, "tm", func() error { return e.unitTm(ctx, commit) })
 				case 2, 3, 4:
@@ -685,16 +813,24 @@ func child(args map[string]string) {
 	go func() { wg.Wait(); close(doneCh) }()
 	select {
 	case <-doneCh:
-	case <-time.After(time.Duration(secs)*time.Second + 60*time.Second):
+	case <-time.After(time.Duration(secs)*time.Second + 25*time.Second):
+		d := blockedDump()
 		mu.Lock()
 		for w, n := range running {
-			res.Stuck = append(res.Stuck, w+":"+n)
+			res.Stuck = append(res.Stuck, "worker "+w+": "+n)
 		}
-		mu.Unlock()
+		if len(res.Stuck) == 0 {
+			res.Stuck = append(res.Stuck, "workers did not finish")
+		}
+		res.StuckDump = d
+		hutil.WriteJSON(args["out"], res)
+		os.Exit(3)
 	}
 	// drain the remaining phase-two requests
-	for e.phase2(true) {
-	}
+	res.watched(args["out"], "phase-two drain", 60*time.Second, &mu, func() {
+		for e.phase2(true) {
+		}
+	})
 	gd, ad, bd, _ := e.settle(res.GorBefore, a0, b0)
 	res.GorAfter = res.GorBefore + gd
 	if gd > 0 {
